@@ -143,6 +143,11 @@ func genInjected(r *rng, thorough bool, mode string, emit func(FlowScenario)) {
 		p := flowParams{leaves: 2 + r.intn(6), batches: r.intn(2), depth: 1 + r.intn(4),
 			actions: []string{"a", "b", "c"}, maxVisits: 2 + r.intn(2),
 			pFail: 25, pPhaseFail: 0, funcStyle: true, runs: 1, wideBatch: mode == "fail"}
+		if i%2 == 0 {
+			// an action label that reads like a failure channel is a label like any other: a node that FAILS does not
+			// "return" it, and an edge carrying it is not an error handler
+			p.actions = []string{"a", "error", "fail"}
+		}
 		if mode == "fail" && i%3 == 0 {
 			// the same root is run AGAIN after the run with the injected failure: an earlier failure (at any depth) leaves
 			// nothing behind in the flow objects
